@@ -297,8 +297,8 @@ def clean():
         wt = f"{ROOT}/w{k}/repo"
         if os.path.isdir(wt):
             subprocess.run(["git", "-C", REPO, "worktree", "remove", "--force", wt], stdout=subprocess.DEVNULL, stderr=subprocess.DEVNULL)
-    subprocess.run(["git", "-C", REPO, "worktree", "prune"])
     shutil.rmtree(ROOT, ignore_errors=True)
+    subprocess.run(["git", "-C", REPO, "worktree", "prune"])      # after the removal: scratch slots of the seed matrix live under ROOT too
 
 
 if __name__ == "__main__":
